@@ -58,7 +58,49 @@ def dunder_facts(model, cls, dunder):
     opname = op.value if isinstance(op, ast.Constant) else None
     from .facts import callable_op
     lam = callable_op(fn.node, call.args[3], model, fn) if len(call.args) > 3 else None
+    if len(call.args) == 3 and not call.keywords and opname is not None:
+        # no callback handed over: the operation applied to plain numbers is looked up by the operation's name
+        # in a constant module table (`_NUMBER_OPERATORS[operation]`)
+        lam = table_number_callback(model, cls, opname)
     return {"fn": fn, "op": opname, "order": order, "lam": lam, "has_lambda": len(call.args) > 3, "node": rets[0]}
+
+
+OPFN = {"Add": ast.Add, "Sub": ast.Sub, "Mult": ast.Mult, "Div": ast.Div, "FloorDiv": ast.FloorDiv, "Mod": ast.Mod, "Pow": ast.Pow}
+
+
+def number_callbacks(model, cls):
+    """Terms of the callables that <cls>._DoOperation applies to (number, own value) / (own value, number)."""
+    from .srcmodel import own_nodes
+    from .terms import Resolver
+
+    fn = model.lookup(cls, "_DoOperation")
+    if fn is None:
+        return None, set()
+    res = Resolver(model, fn)
+    found = set()
+    for c in own_nodes(fn.node):
+        if isinstance(c, ast.Call) and len(c.args) == 2 and not c.keywords:
+            a = [res.term(x) for x in c.args]
+            if ("field", "_value") in a and any(x[0] == "param" and x[2] in ("p1", "p2") for x in a):
+                found.add(res.term(c.func))
+    return fn, found
+
+
+def table_number_callback(model, cls, opname):
+    """(operator class, False) when _DoOperation takes its number callback from a constant table indexed by
+    the operation name and the entry for `opname` is a function of the operator module; else None."""
+    fn, found = number_callbacks(model, cls)
+    if fn is None or len(found) != 1:
+        return None
+    t = next(iter(found))
+    if "operation" not in fn.params:
+        return None
+    if t[0] == "sub" and t[1][0] == "dict" and t[2] == ("param", fn.params.index("operation"), "operation") and fn.params.index("operation") == 3:
+        for k, v in t[1][1]:
+            if k == ("const", opname):
+                if v[0] == "opfn" and v[1] in OPFN:
+                    return OPFN[v[1]], False
+    return None
 
 
 def check_dunders(rep, rule, model, cls, kinds=None, with_lambda=False):
